@@ -76,6 +76,9 @@ def _random(rnd):
     for i in range(ns):
         src = 'counter' if valued and rnd.random() < .3 else 'input'
         blocks.append(_s(f'i{i + 1}', rnd.randint(0, 3) if valued else rnd.randint(0, 1), src))
+        if ns > 1 and rnd.random() < 0.15:
+            # its on_output event fails non-fatally (unknown event type at another S block)
+            blocks[-1]['bad'] = rnd.choice([x for x in range(1, ns + 1) if x != i + 1])
     for j in range(nc):
         idx = ns + j + 1
         avail = list(range(1, idx))
@@ -125,7 +128,8 @@ def _random(rnd):
     for i, b in enumerate(blocks, 1):
         if b['fb']:
             up = upstream(i)
-            b['fb'] = [s for s in b['fb'] if s not in up]
+            # (an event that fails inside the simulator task is fatal: keep 'bad' blocks out)
+            b['fb'] = [s for s in b['fb'] if s not in up and not blocks[s - 1].get('bad')]
     order = list(range(1, ns + nc + 1))
     if rnd.random() < .5:
         rnd.shuffle(order)
